@@ -113,8 +113,23 @@ func ntnMap() protocol.ProtocolVersionMap {
 
 func handshakeSyms() []symBinding {
 	return []symBinding{
-		sb("ProposeVersions", func() protocol.Message { return handshake.NewMsgProposeVersions(ntnMap()) }),
-		sb("AcceptVersion", func() protocol.Message { return handshake.NewMsgAcceptVersion(13, ntnMap()[13]) }),
+		sb("ProposeVersions",
+			func() protocol.Message { return handshake.NewMsgProposeVersions(ntnMap()) },
+			func() protocol.Message {
+				return handshake.NewMsgProposeVersions(protocol.ProtocolVersionMap{
+					0: protocol.VersionDataNtC9to14(0), 32767: ntnMap()[13], 32768: protocol.VersionDataNtC9to14(1<<32 - 1),
+					65535: protocol.VersionDataNtC15andUp{CborNetworkMagic: 1<<32 - 1, CborQuery: true}})
+			},
+			func() protocol.Message { return handshake.NewMsgProposeVersions(protocol.ProtocolVersionMap{}) }),
+		sb("AcceptVersion",
+			func() protocol.Message { return handshake.NewMsgAcceptVersion(13, ntnMap()[13]) },
+			// version numbers at the ends of the number spaces
+			func() protocol.Message { return handshake.NewMsgAcceptVersion(0, ntnMap()[13]) },
+			func() protocol.Message { return handshake.NewMsgAcceptVersion(32767, ntnMap()[13]) },
+			func() protocol.Message { return handshake.NewMsgAcceptVersion(32768, protocol.VersionDataNtC9to14(0)) },
+			func() protocol.Message {
+				return handshake.NewMsgAcceptVersion(65535, protocol.VersionDataNtC15andUp{CborNetworkMagic: 1<<32 - 1, CborQuery: true})
+			}),
 		sb("Refuse",
 			func() protocol.Message {
 				return handshake.NewMsgRefuse([]any{handshake.RefuseReasonVersionMismatch, []uint16{13, 14}})
@@ -183,7 +198,9 @@ func bindings() []*binding {
 		{id: "block-fetch", proto: "block-fetch", spec: specBlockFetch, protoID: blockfetch.ProtocolId,
 			mode: protocol.ProtocolModeNodeToNode, sm: blockfetch.StateMap, initial: "Idle",
 			fromCbor: blockfetch.NewMsgFromCbor, syms: []symBinding{
-				sb("RequestRange", func() protocol.Message { return blockfetch.NewMsgRequestRange(pointA, pointA) }),
+				sb("RequestRange",
+					func() protocol.Message { return blockfetch.NewMsgRequestRange(pointA, pointA) },
+					func() protocol.Message { return blockfetch.NewMsgRequestRange(pointO, pcommon.NewPoint(1<<64-1, hash32)) }),
 				sb("ClientDone", func() protocol.Message { return blockfetch.NewMsgClientDone() }),
 				sb("StartBatch", func() protocol.Message { return blockfetch.NewMsgStartBatch() }),
 				sb("NoBlocks", func() protocol.Message { return blockfetch.NewMsgNoBlocks() }),
@@ -198,8 +215,14 @@ func bindings() []*binding {
 			mode: protocol.ProtocolModeNodeToNode, sm: txsubmission.StateMap, initial: "Init",
 			fromCbor: txsubmission.NewMsgFromCbor, syms: []symBinding{
 				sb("Init", func() protocol.Message { return txsubmission.NewMsgInit() }),
-				sb("RequestTxIds[blocking]", func() protocol.Message { return txsubmission.NewMsgRequestTxIds(true, 0, 3) }),
-				sb("RequestTxIds[non-blocking]", func() protocol.Message { return txsubmission.NewMsgRequestTxIds(false, 1, 2) }),
+				sb("RequestTxIds[blocking]",
+					func() protocol.Message { return txsubmission.NewMsgRequestTxIds(true, 0, 3) },
+					func() protocol.Message { return txsubmission.NewMsgRequestTxIds(true, 65535, 65535) },
+					func() protocol.Message { return txsubmission.NewMsgRequestTxIds(true, 0, 0) }),
+				sb("RequestTxIds[non-blocking]",
+					func() protocol.Message { return txsubmission.NewMsgRequestTxIds(false, 1, 2) },
+					func() protocol.Message { return txsubmission.NewMsgRequestTxIds(false, 65535, 65535) },
+					func() protocol.Message { return txsubmission.NewMsgRequestTxIds(false, 0, 0) }),
 				sb("ReplyTxIds",
 					func() protocol.Message {
 						return txsubmission.NewMsgReplyTxIds([]txsubmission.TxIdAndSize{{TxId: txid(), Size: 300}})
@@ -217,15 +240,24 @@ func bindings() []*binding {
 		{id: "keep-alive", proto: "keep-alive", spec: specKeepAlive, protoID: keepalive.ProtocolId,
 			mode: protocol.ProtocolModeNodeToNode, sm: keepalive.StateMap, initial: "Client",
 			fromCbor: keepalive.NewMsgFromCbor, syms: []symBinding{
-				sb("KeepAlive", func() protocol.Message { return keepalive.NewMsgKeepAlive(0xbeef) }),
-				sb("KeepAliveResponse", func() protocol.Message { return keepalive.NewMsgKeepAliveResponse(0xbeef) }),
+				sb("KeepAlive",
+					func() protocol.Message { return keepalive.NewMsgKeepAlive(0xbeef) },
+					func() protocol.Message { return keepalive.NewMsgKeepAlive(0) },
+					func() protocol.Message { return keepalive.NewMsgKeepAlive(65535) }),
+				sb("KeepAliveResponse",
+					func() protocol.Message { return keepalive.NewMsgKeepAliveResponse(0xbeef) },
+					func() protocol.Message { return keepalive.NewMsgKeepAliveResponse(0) },
+					func() protocol.Message { return keepalive.NewMsgKeepAliveResponse(65535) }),
 				sb("Done", func() protocol.Message { return keepalive.NewMsgDone() }),
 			}},
 
 		{id: "peer-sharing", proto: "peer-sharing", spec: specPeerSharing, protoID: peersharing.ProtocolId,
 			mode: protocol.ProtocolModeNodeToNode, sm: peersharing.StateMap, initial: "Idle",
 			fromCbor: peersharing.NewMsgFromCbor, syms: []symBinding{
-				sb("ShareRequest", func() protocol.Message { return peersharing.NewMsgShareRequest(5) }),
+				sb("ShareRequest",
+					func() protocol.Message { return peersharing.NewMsgShareRequest(5) },
+					func() protocol.Message { return peersharing.NewMsgShareRequest(0) },
+					func() protocol.Message { return peersharing.NewMsgShareRequest(255) }),
 				sb("SharePeers",
 					func() protocol.Message {
 						return peersharing.NewMsgSharePeers([]peersharing.PeerAddress{
@@ -252,16 +284,24 @@ func bindings() []*binding {
 			fromCbor: localtxmonitor.NewMsgFromCbor, syms: []symBinding{
 				sb("Done", func() protocol.Message { return localtxmonitor.NewMsgDone() }),
 				sb("Acquire", func() protocol.Message { return localtxmonitor.NewMsgAcquire() }),
-				sb("Acquired", func() protocol.Message { return localtxmonitor.NewMsgAcquired(99) }),
+				sb("Acquired",
+					func() protocol.Message { return localtxmonitor.NewMsgAcquired(99) },
+					func() protocol.Message { return localtxmonitor.NewMsgAcquired(0) },
+					func() protocol.Message { return localtxmonitor.NewMsgAcquired(1<<64 - 1) }),
 				sb("Release", func() protocol.Message { return localtxmonitor.NewMsgRelease() }),
 				sb("NextTx", func() protocol.Message { return localtxmonitor.NewMsgNextTx() }),
 				sb("ReplyNextTx",
 					func() protocol.Message { return localtxmonitor.NewMsgReplyNextTx(6, fixtures.DijkstraTx()) },
 					func() protocol.Message { return localtxmonitor.NewMsgReplyNextTx(0, nil) }),
 				sb("HasTx", func() protocol.Message { return localtxmonitor.NewMsgHasTx(hash32) }),
-				sb("ReplyHasTx", func() protocol.Message { return localtxmonitor.NewMsgReplyHasTx(true) }),
+				sb("ReplyHasTx",
+					func() protocol.Message { return localtxmonitor.NewMsgReplyHasTx(true) },
+					func() protocol.Message { return localtxmonitor.NewMsgReplyHasTx(false) }),
 				sb("GetSizes", func() protocol.Message { return localtxmonitor.NewMsgGetSizes() }),
-				sb("ReplyGetSizes", func() protocol.Message { return localtxmonitor.NewMsgReplyGetSizes(1000, 10, 1) }),
+				sb("ReplyGetSizes",
+					func() protocol.Message { return localtxmonitor.NewMsgReplyGetSizes(1000, 10, 1) },
+					func() protocol.Message { return localtxmonitor.NewMsgReplyGetSizes(0, 0, 0) },
+					func() protocol.Message { return localtxmonitor.NewMsgReplyGetSizes(1<<32-1, 1<<32-1, 1<<32-1) }),
 			}},
 
 		{id: "local-state-query", proto: "local-state-query", spec: specLocalStateQuery, protoID: localstatequery.ProtocolId,
@@ -271,7 +311,10 @@ func bindings() []*binding {
 				sb("Acquire[volatile-tip]", func() protocol.Message { return localstatequery.NewMsgAcquireVolatileTip() }),
 				sb("Acquire[immutable-tip]", func() protocol.Message { return localstatequery.NewMsgAcquireImmutableTip() }),
 				sb("Acquired", func() protocol.Message { return localstatequery.NewMsgAcquired() }),
-				sb("Failure", func() protocol.Message { return localstatequery.NewMsgFailure(1) }),
+				sb("Failure",
+					func() protocol.Message { return localstatequery.NewMsgFailure(1) },
+					func() protocol.Message { return localstatequery.NewMsgFailure(0) },
+					func() protocol.Message { return localstatequery.NewMsgFailure(255) }),
 				sb("Query", func() protocol.Message {
 					return localstatequery.NewMsgQuery([]any{localstatequery.QueryTypeSystemStart})
 				}),
@@ -304,6 +347,7 @@ func isClient(r protocol.ProtocolRole) bool { return r == protocol.ProtocolRoleC
 var exportedReal = map[string]realFactory{
 	"handshake/ntn": func(r protocol.ProtocolRole, o protocol.ProtocolOptions) *protocol.Protocol {
 		cfg := handshake.NewConfig(handshake.WithProtocolVersionMap(ntnMap()))
+		tweak(&cfg.Timeout)
 		if isClient(r) {
 			return handshake.NewClient(o, &cfg).Protocol
 		}
@@ -312,6 +356,7 @@ var exportedReal = map[string]realFactory{
 	"handshake/ntc": func(r protocol.ProtocolRole, o protocol.ProtocolOptions) *protocol.Protocol {
 		cfg := handshake.NewConfig(handshake.WithProtocolVersionMap(
 			protocol.GetProtocolVersionMap(protocol.ProtocolModeNodeToClient, 764824073, false, false, false)))
+		tweak(&cfg.Timeout)
 		if isClient(r) {
 			return handshake.NewClient(o, &cfg).Protocol
 		}
@@ -321,6 +366,8 @@ var exportedReal = map[string]realFactory{
 	"chain-sync/ntc": chainSyncReal,
 	"block-fetch": func(r protocol.ProtocolRole, o protocol.ProtocolOptions) *protocol.Protocol {
 		cfg := must(blockfetch.NewConfig())
+		tweak(&cfg.BatchStartTimeout)
+		tweak(&cfg.BlockTimeout)
 		if isClient(r) {
 			return blockfetch.NewClient(o, &cfg).Protocol
 		}
@@ -335,6 +382,7 @@ var exportedReal = map[string]realFactory{
 	},
 	"keep-alive": func(r protocol.ProtocolRole, o protocol.ProtocolOptions) *protocol.Protocol {
 		cfg := keepalive.NewConfig()
+		tweak(&cfg.Timeout)
 		if isClient(r) {
 			return keepalive.NewClient(o, &cfg).Protocol
 		}
@@ -342,6 +390,7 @@ var exportedReal = map[string]realFactory{
 	},
 	"peer-sharing": func(r protocol.ProtocolRole, o protocol.ProtocolOptions) *protocol.Protocol {
 		cfg := peersharing.NewConfig()
+		tweak(&cfg.Timeout)
 		if isClient(r) {
 			return peersharing.NewClient(o, &cfg).Protocol
 		}
@@ -349,6 +398,7 @@ var exportedReal = map[string]realFactory{
 	},
 	"local-tx-submission": func(r protocol.ProtocolRole, o protocol.ProtocolOptions) *protocol.Protocol {
 		cfg := localtxsubmission.NewConfig()
+		tweak(&cfg.Timeout)
 		if isClient(r) {
 			return localtxsubmission.NewClient(o, &cfg).Protocol
 		}
@@ -356,6 +406,8 @@ var exportedReal = map[string]realFactory{
 	},
 	"local-tx-monitor": func(r protocol.ProtocolRole, o protocol.ProtocolOptions) *protocol.Protocol {
 		cfg := localtxmonitor.NewConfig()
+		tweak(&cfg.AcquireTimeout)
+		tweak(&cfg.QueryTimeout)
 		if isClient(r) {
 			return localtxmonitor.NewClient(o, &cfg).Protocol
 		}
@@ -363,6 +415,8 @@ var exportedReal = map[string]realFactory{
 	},
 	"local-state-query": func(r protocol.ProtocolRole, o protocol.ProtocolOptions) *protocol.Protocol {
 		cfg := localstatequery.NewConfig()
+		tweak(&cfg.AcquireTimeout)
+		tweak(&cfg.QueryTimeout)
 		if isClient(r) {
 			return localstatequery.NewClient(o, &cfg).Protocol
 		}
@@ -370,6 +424,7 @@ var exportedReal = map[string]realFactory{
 	},
 	"leios-fetch": func(r protocol.ProtocolRole, o protocol.ProtocolOptions) *protocol.Protocol {
 		cfg := leiosfetch.NewConfig()
+		tweak(&cfg.Timeout)
 		if isClient(r) {
 			return leiosfetch.NewClient(o, &cfg).Protocol
 		}
@@ -377,6 +432,7 @@ var exportedReal = map[string]realFactory{
 	},
 	"leios-notify": func(r protocol.ProtocolRole, o protocol.ProtocolOptions) *protocol.Protocol {
 		cfg := leiosnotify.NewConfig()
+		tweak(&cfg.Timeout)
 		if isClient(r) {
 			return leiosnotify.NewClient(o, &cfg).Protocol
 		}
@@ -386,6 +442,9 @@ var exportedReal = map[string]realFactory{
 
 func chainSyncReal(r protocol.ProtocolRole, o protocol.ProtocolOptions) *protocol.Protocol {
 	cfg := chainsync.NewConfig()
+	tweak(&cfg.IntersectTimeout)
+	tweak(&cfg.IdleTimeout)
+	tweak(&cfg.BlockTimeout)
 	if isClient(r) {
 		return chainsync.NewClient(o, &cfg).Protocol
 	}
@@ -398,8 +457,12 @@ func chainSyncReal(r protocol.ProtocolRole, o protocol.ProtocolOptions) *protoco
 func dmqBindings() []*binding {
 	msSyms := []symBinding{
 		sb("Init", func() protocol.Message { return messagesubmission.NewMsgInit() }),
-		sb("RequestMessageIds[blocking]", func() protocol.Message { return messagesubmission.NewMsgRequestMessageIds(true, 0, 3) }),
-		sb("RequestMessageIds[non-blocking]", func() protocol.Message { return messagesubmission.NewMsgRequestMessageIds(false, 0, 3) }),
+		sb("RequestMessageIds[blocking]",
+			func() protocol.Message { return messagesubmission.NewMsgRequestMessageIds(true, 0, 3) },
+			func() protocol.Message { return messagesubmission.NewMsgRequestMessageIds(true, 65535, 65535) }),
+		sb("RequestMessageIds[non-blocking]",
+			func() protocol.Message { return messagesubmission.NewMsgRequestMessageIds(false, 0, 3) },
+			func() protocol.Message { return messagesubmission.NewMsgRequestMessageIds(false, 65535, 65535) }),
 		sb("ReplyMessageIds",
 			func() protocol.Message {
 				return messagesubmission.NewMsgReplyMessageIds([]pcommon.MessageIDAndSize{{MessageID: hash32, SizeInBytes: 700}})
@@ -413,6 +476,11 @@ func dmqBindings() []*binding {
 	}
 	msReal := func(role protocol.ProtocolRole, o protocol.ProtocolOptions) *protocol.Protocol {
 		cfg := messagesubmission.NewConfig()
+		tweak(&cfg.InitTimeout)
+		tweak(&cfg.IdleTimeout)
+		tweak(&cfg.MessageIdsBlockingTimeout)
+		tweak(&cfg.MessageIdsNonblockingTimeout)
+		tweak(&cfg.MessagesTimeout)
 		if role == protocol.ProtocolRoleClient {
 			return messagesubmission.NewClient(o, &cfg).Protocol
 		}
@@ -442,6 +510,7 @@ func dmqBindings() []*binding {
 			},
 			real: func(role protocol.ProtocolRole, o protocol.ProtocolOptions) *protocol.Protocol {
 				cfg := localmessagesubmission.NewConfig()
+				tweak(&cfg.Timeout)
 				if role == protocol.ProtocolRoleClient {
 					return localmessagesubmission.NewClient(o, &cfg).Protocol
 				}
@@ -466,6 +535,7 @@ func dmqBindings() []*binding {
 			},
 			real: func(role protocol.ProtocolRole, o protocol.ProtocolOptions) *protocol.Protocol {
 				cfg := localmessagenotification.NewConfig()
+				tweak(&cfg.BlockingRequestTimeout)
 				if role == protocol.ProtocolRoleClient {
 					return localmessagenotification.NewClient(o, &cfg).Protocol
 				}
@@ -536,6 +606,7 @@ func leiosBindings() []*binding {
 			},
 			real: func(role protocol.ProtocolRole, o protocol.ProtocolOptions) *protocol.Protocol {
 				cfg := leiosvotes.NewConfig()
+				tweak(&cfg.Timeout)
 				if role == protocol.ProtocolRoleClient {
 					return leiosvotes.NewClient(o, &cfg).Protocol
 				}
